@@ -48,13 +48,19 @@ func MapKeys[K comparable, V any](m map[K]V, site string) []K {
 		}
 		return keys
 	}
-	out := append(append([]K{}, keys[c:]...), keys[:c]...)
+	out := make([]K, 0, n)
+	for i := 0; i < n; i++ {
+		out = append(out, keys[(c+i)%n])
+	}
 	return out
 }
 
 //go:norace
 func nthPerm[K any](keys []K, idx int) []K {
-	pool := append([]K{}, keys...)
+	pool := make([]K, 0, len(keys))
+	for _, k := range keys {
+		pool = append(pool, k)
+	}
 	n := len(pool)
 	fact := 1
 	for i := 2; i < n; i++ {
@@ -65,7 +71,10 @@ func nthPerm[K any](keys []K, idx int) []K {
 		q := idx / fact
 		idx %= fact
 		out = append(out, pool[q])
-		pool = append(pool[:q], pool[q+1:]...)
+		for j := q; j+1 < len(pool); j++ {
+			pool[j] = pool[j+1]
+		}
+		pool = pool[:len(pool)-1]
 		if i > 0 {
 			fact /= max(i, 1)
 		}
